@@ -307,6 +307,8 @@ type c04State struct {
 	targets []c04Target
 	insts   []*plenc.Plenc
 	descs   []*plenccodec.Descriptor
+	warm    []reflect.Value // per target: what the first valid encoding decodes to
+	tries   int
 	older   [][]*plenccodec.Descriptor // per target: descriptors of the same named type with fields removed (another schema version)
 	dreads  int
 	sizes   []uintptr
@@ -364,6 +366,14 @@ func c04Setup(c *core.Ctx) {
 		if len(vs) == 0 {
 			vs = append(vs, []byte{0x08, 0x01})
 		}
+		warm := reflect.Value{}
+		if len(vs) > 0 {
+			w := reflect.New(t.typ)
+			if err, pn := unmarshal(p, vs[0], w.Interface()); err == nil && pn == "" {
+				warm = w.Elem()
+			}
+		}
+		st.warm = append(st.warm, warm)
 		vs = append(vs, c04Crafted()...)
 		st.valid = append(st.valid, vs)
 	}
@@ -380,12 +390,20 @@ func c04Setup(c *core.Ctx) {
 
 // decodeOnce runs Unmarshal on data (exact capacity) and returns the outcome
 func (st *c04State) decodeOnce(c *core.Ctx, ti int, data []byte, what string) (val reflect.Value, err error, ok bool) {
+	return st.decodeInto(c, ti, data, what, reflect.Value{})
+}
+
+// decodeInto is decodeOnce with a target the caller prepared (invalid: a fresh one)
+func (st *c04State) decodeInto(c *core.Ctx, ti int, data []byte, what string, prepared reflect.Value) (val reflect.Value, err error, ok bool) {
 	t := st.targets[ti]
 	st.cur.target, st.cur.input, st.cur.what = t.name, data, what
 	core.TheCursor.Note(what, " target=", t.name, " input=", fmt.Sprintf("%x", head(data, 4000)))
 	st.wd.Step.Add(1)
 	st.wd.Busy.Store(true)
 	target := reflect.New(t.typ)
+	if prepared.IsValid() {
+		target = prepared
+	}
 	a0 := st.alloc.Bytes()
 	cpu0 := mon.ThreadCPU()
 	var pn string
@@ -506,6 +524,25 @@ func (st *c04State) tryInput(c *core.Ctx, ti int, data []byte, cross bool) bool 
 	if ok {
 		ok = st.descOnce(c, ti, g.Data)
 	}
+	if ok && st.tries%4 == 1 && !strings.HasPrefix(st.targets[ti].name, "wide") && !strings.HasPrefix(st.targets[ti].name, "map[string]wide") {
+		// a target that is not fresh: every slice and map in it empty but not nil, every pointer set -
+		// or holding what an earlier valid message left there
+		prep := reflect.New(st.targets[ti].typ)
+		if st.tries%8 == 1 {
+			emptyNotNil(prep.Elem(), 0)
+		} else if w := st.warm[ti]; w.IsValid() {
+			prep.Elem().Set(model.DeepCopy(w))
+		}
+		var vp reflect.Value
+		vp, _, ok = st.decodeInto(c, ti, g.Data, "Unmarshal into a prepared target", prep)
+		if ok {
+			if bad := badSliceHeader(vp, "$", 0); bad != "" {
+				c.Rec.Violation("decode-panic", fmt.Sprintf("Unmarshal into a prepared target of %s left a slice whose length exceeds its capacity (%s) on the %d-byte input %s", st.targets[ti].name, bad, len(data), hexHead(data)), map[string]any{"target": st.targets[ti].name, "input": fmt.Sprintf("%x", head(data, 4000))})
+				ok = false
+			}
+		}
+	}
+	st.tries++
 	g.Free()
 	if !ok {
 		return false
@@ -538,6 +575,64 @@ func (st *c04State) tryInput(c *core.Ctx, ti int, data []byte, cross bool) bool 
 		}
 	}
 	return true
+}
+
+// emptyNotNil sets every slice and map reachable in v to an empty, non-nil one and every pointer
+// to a fresh target (three levels deep)
+func emptyNotNil(v reflect.Value, depth int) {
+	if depth > 3 || !v.CanSet() {
+		return
+	}
+	switch v.Kind() {
+	case reflect.Slice:
+		v.Set(reflect.MakeSlice(v.Type(), 0, 0))
+	case reflect.Map:
+		v.Set(reflect.MakeMap(v.Type()))
+	case reflect.Ptr:
+		v.Set(reflect.New(v.Type().Elem()))
+		emptyNotNil(v.Elem(), depth+1)
+	case reflect.Struct:
+		if v.Type() == model.TimeT {
+			return
+		}
+		for i := 0; i < v.NumField(); i++ {
+			emptyNotNil(v.Field(i), depth+1)
+		}
+	}
+}
+
+// badSliceHeader finds a slice whose length exceeds its capacity
+func badSliceHeader(v reflect.Value, path string, depth int) string {
+	if depth > 6 {
+		return ""
+	}
+	switch v.Kind() {
+	case reflect.Slice:
+		if v.Len() > v.Cap() {
+			return fmt.Sprintf("%s: len %d cap %d", path, v.Len(), v.Cap())
+		}
+		for i := 0; i < v.Len() && i < 4 && i < v.Cap(); i++ {
+			if s := badSliceHeader(v.Index(i), path+"[]", depth+1); s != "" {
+				return s
+			}
+		}
+	case reflect.Ptr, reflect.Interface:
+		if !v.IsNil() {
+			return badSliceHeader(v.Elem(), path+"*", depth+1)
+		}
+	case reflect.Struct:
+		if v.Type() == model.TimeT {
+			return ""
+		}
+		for i := 0; i < v.NumField(); i++ {
+			if v.Type().Field(i).IsExported() {
+				if s := badSliceHeader(v.Field(i), path+"."+v.Type().Field(i).Name, depth+1); s != "" {
+					return s
+				}
+			}
+		}
+	}
+	return ""
 }
 
 func hasInternField(t reflect.Type, seen map[reflect.Type]bool) bool {
@@ -806,7 +901,7 @@ func init() {
 		Technique: "hostile-input monitor in child processes: exhaustive short strings, truncations and seeded mutations of valid encodings against ~45 (target type, configuration) pairs; panic/fault capture, guard-page read-only inputs with exact capacity, CPU-time meter and watchdog, allocation meter, spare-capacity differential; ASan lane in thorough",
 		Rule: "targets: one (type, configuration) pair per codec family (scalars, every slice wrapper, maps incl. struct keys and proto maps, times x2, null.*, JSON any, BigQuery time, recursive and mutually recursive structs, index 0 and 100000, plenc's own Descriptor, 64 KiB values and 1120-byte keys in maps, slices and pointers). " +
 			"inputs: ALL strings of length <= 3 (thorough: 4) over a 24-symbol alphabet of tag / length / continuation bytes, every prefix (and the whole) of 24 valid encodings per target and of crafted map entries no encoder writes (key only, value only, empty, duplicated key; both map forms), and seeded mutants (truncate, bit flip, interesting byte, huge/over-long varints replacing or inserted, duplicate/delete span, splice, wire-type flip, random tail; every fourth block from another target's encodings). " +
-			"Each input is decoded by Unmarshal and (non-recursive targets) Descriptor.Read - through the target's descriptor and through another version of it that has lost fields at every depth but kept its type names - from a PROT_READ mapping whose end abuts a PROT_NONE page; one input in 8 is decoded again from heap buffers with spare capacity filled with two different patterns. " +
+			"Each input is decoded by Unmarshal (one in four also into a prepared target: empty non-nil containers and set pointers, or what a valid message left) and (non-recursive targets) Descriptor.Read - through the target's descriptor and through another version of it that has lost fields at every depth but kept its type names - from a PROT_READ mapping whose end abuts a PROT_NONE page; one input in 8 is decoded again from heap buffers with spare capacity filled with two different patterns. " +
 			"Verdict per call: no panic/fault, thread CPU <= 2 s (watchdog: 4 s of process CPU without returning), allocation <= 64 KiB + 64 x S_T x (len+16) where S_T is the largest element/bucket size reachable in the target type. distinct = distinct (target, mutant) pairs",
 		Assume:     []string{"allocation is runtime.MemStats.TotalAlloc read around the call in a single-goroutine child", "the watchdog decides on process CPU time, not wall time"},
 		Exhaustive: []string{"all strings of length <= 3 (quick) / <= 4 (thorough) over the 24-symbol alphabet, for every target"},
